@@ -442,7 +442,7 @@ class Runner:
             if pm is not None: self.aux.append(pm)
             real = aa.MapperValued(mapper=mapper.real, values=values, mesh_pixel_mask=pm)
             mm = [False] * int(np.size(values)) if pm is None else [bool(x) for x in pm]
-            ob = Obj("valued", real, None, mm, False); ob.mapper = s["m"]
+            ob = Obj("valued", real, None, mm, False); ob.mapper = s["m"]; ob.values_input = s["i"]
             self.objs.append(ob)
             return f"OValued {cnat(s['i'])} {cmask(mm)}", ("ok", self.obj_contents(ob))
         if o == "values_masked":
@@ -558,7 +558,15 @@ def run_hist(inp):
     res = {"coq": coq, "out": {"obs": [o for o, _ in out][-3:], "changed": changed_names, "qids": {f"{k[0]}/{int(k[1])}/{k[2]}": v for k, v in r.qids.items()}},
            "py_ok": py_ok, "nontrivial": reads >= 2 and derivs >= 1, "kind": "hist:" + inp.get("tag", "random")}
     if detail: res["detail"] = detail
-    if r.finding: res["finding"] = r.finding
+    if r.finding:
+        # the known finding D8 is the write into the `values` array of a MapperValued whose pixel mask has a True: a change
+        # of anything else (another input, a cached matrix, another object's array) in the same history is NOT that finding
+        foot = set()
+        for j, o in enumerate(r.objs):
+            if o.kind == "valued" and any(o.mmask):
+                foot.add(("in", o.values_input))
+                foot |= {("arr", j2) for j2, o2 in enumerate(r.objs) if o2.kind == "valued" and o2.values_input == o.values_input}
+        if all(tuple(n) in foot for n, _ in changed_names): res["finding"] = r.finding
     return res
 
 # ----------------------------------------------------------------------------- inversions (KInv) and object graphs
